@@ -34,6 +34,11 @@ Box(cid, lo, e, hi, grid, incF, incL) ==
 VCon(cid, lhs, rhs, grid, incF, incL, vscale) ==
   [cid |-> cid, rel |-> "vle", lhs |-> lhs, rhs |-> rhs, lo |-> CI(0), hi |-> CI(0),
    grid |-> grid, incF |-> incF, incL |-> incL, scale |-> One, vscale |-> vscale]
+\* vector double inequality  lo[i] <= lhs[i] <= hi[i]  with constant bounds, some of which may be infinite (InfE); scalar scale
+InfE == [op |-> "inf"]
+VBox(cid, lo, lhs, hi, grid, incF, incL) ==
+  [cid |-> cid, rel |-> "vbox", lhs |-> lhs, rhs |-> CI(0), lo |-> lo, hi |-> hi,
+   grid |-> grid, incF |-> incF, incL |-> incL, scale |-> One]
 Scaled(c, s) == IF c.rel = "vle" THEN c ELSE [c EXCEPT !.scale = s]
 
 MethodDC(N, M, scheme, degree, grid) ==
@@ -131,9 +136,12 @@ KMp == Con("kMp", "le", Minus(Off(P(1), 1), X(1)), CI(4), "control", TRUE, TRUE)
 \* vector-valued path constraint with element-wise scale
 KV == VCon("kV", <<X(1), Times(U(1), Tm)>>, <<CI(5), Plus(CI(3), X(1))>>, "control", TRUE, FALSE, <<R(2), Q(1, 2)>>)
 ConIds == {"k1", "k2", "k3", "k4", "k5", "k6", "k7", "k8", "k9", "kA", "kB"}
+KW == VBox("kW", <<InfE, CI(-1)>>, <<X(1), Plus(U(1), X(1))>>, <<CI(5), CI(7)>>, "control", TRUE, FALSE)
+KX == VBox("kX", <<CI(-5), CI(-7)>>, <<Times(X(1), Tm), U(1)>>, <<CI(4), InfE>>, "control", FALSE, TRUE)
 ConOf(id) == CASE id = "k1" -> K1 [] id = "k2" -> K2 [] id = "k3" -> K3 [] id = "k4" -> K4
                [] id = "k5" -> K5 [] id = "k6" -> K6 [] id = "k7" -> K7 [] id = "k8" -> K8
                [] id = "k9" -> K9 [] id = "kA" -> KA [] id = "kB" -> KB [] id = "kR" -> KR [] id = "kS" -> KS [] id = "kV" -> KV [] id = "kM" -> KM [] id = "kMp" -> KMp
+               [] id = "kW" -> KW [] id = "kX" -> KX
 
 (***************************************************************************)
 (* Objective terms.  Integrands live in d.quads and are referred to by     *)
